@@ -1,5 +1,6 @@
 import Mixin.Model.Recovery
 import Mixin.Facts.ExpectedC22
+import Mixin.Facts.ExpectedC21
 namespace Mixin.C21
 open Mixin.Recovery
 
